@@ -2,7 +2,7 @@ import CalicoVerif.Util.Proto
 import CalicoVerif.Model.C32
 /-! Driver for C32. Ops:
   `new <n> <interval> <now> <pushAfter> <agg>` | `add <key> <t> <cnt>` | `roll <0|1>` | `emit`
-  `list <gte> <lt>` | `find <t>`
+  `list <gte> <lt>` | `find <t>` | `stats <type 0|1|2> <groupByRule 0|1> <gte> <lt>`
 Output: `<result> | <canonical ring dump>`.
 -/
 open CalicoVerif CalicoVerif.C32 CalicoVerif.Proto
@@ -39,6 +39,15 @@ def step (r : Ring) (line : String) : Ring × String :=
     | some a, some b =>
       (r, joinWith "," ((r.list a b).map (fun q => s!"{q.1}:{q.2.1}:{q.2.2.1}:{q.2.2.2}")) ++ " | " ++ dump r)
     | _, _ => bad
+  | ["stats", typ, gb, a, b] =>
+    match typ.toNat?, gb.toNat?, a.toInt?, b.toInt? with
+    | some typ, some gb, some a, some b =>
+      let res := match r.stats typ (gb != 0) a b with
+        | none => "err"
+        | some rows => joinWith ";" (rows.map (fun (x : SKey × Counts) =>
+            s!"{x.1.1}/{x.1.2.1}/{x.1.2.2.1}/{x.1.2.2.2}:{x.2.ain},{x.2.aout},{x.2.din},{x.2.dout},{x.2.pin},{x.2.pout}"))
+      (r, res ++ " | " ++ dump r)
+    | _, _, _, _ => bad
   | ["find", t] =>
     match t.toInt? with
     | some t => (r, (match r.findBucket t with | some i => toString i | none => "-1") ++ " | " ++ dump r)
